@@ -27,6 +27,7 @@ type Program struct {
 	fnByKey  map[string][]*ssa.Function // pkg::key -> functions (instantiations for generics)
 	keyOfFn  map[*ssa.Function]string
 	allFuncs map[*ssa.Function]bool
+	constErr map[*ssa.Global]bool
 }
 
 func (p *Program) strLit(s string) string {
@@ -66,7 +67,7 @@ func loadProgram(repoDir string, patterns []string) (*Program, error) {
 	prog, spkgs := ssautil.AllPackages(pkgs, ssa.InstantiateGenerics|ssa.GlobalDebug)
 	prog.Build()
 	p := &Program{Fset: prog.Fset, Pkgs: pkgs, SSA: prog, SSAPkgs: map[string]*ssa.Package{}, AllPkgs: map[string]*packages.Package{},
-		strs: map[string]int{}, fnByKey: map[string][]*ssa.Function{}, keyOfFn: map[*ssa.Function]string{}}
+		constErr: map[*ssa.Global]bool{}, strs: map[string]int{}, fnByKey: map[string][]*ssa.Function{}, keyOfFn: map[*ssa.Function]string{}}
 	_ = spkgs
 	packages.Visit(pkgs, nil, func(pp *packages.Package) {
 		p.AllPkgs[pp.PkgPath] = pp
@@ -355,4 +356,46 @@ func positionsInside(fn *ssa.Function, l *Loop, n ast.Node) bool {
 		}
 	}
 	return true
+}
+
+// globalIsConstErr: a package-level variable of type error whose only store in the whole program is in
+// its package initialiser, with a value produced by errors.New or fmt.Errorf.
+func (p *Program) globalIsConstErr(g *ssa.Global) bool {
+	if v, ok := p.constErr[g]; ok {
+		return v
+	}
+	res := false
+	defer func() { p.constErr[g] = res }()
+	pt, ok := g.Type().(*types.Pointer)
+	if !ok || pt.Elem().String() != "error" {
+		return false
+	}
+	stores := 0
+	good := false
+	for fn := range p.allFuncs {
+		if fn.Pkg != g.Pkg {
+			continue
+		}
+		for _, b := range fn.Blocks {
+			for _, in := range b.Instrs {
+				st, ok := in.(*ssa.Store)
+				if !ok || st.Addr != ssa.Value(g) {
+					continue
+				}
+				stores++
+				if fn.Name() == "init" {
+					if c, ok := st.Val.(*ssa.Call); ok {
+						if callee := c.Common().StaticCallee(); callee != nil {
+							n := callee.String()
+							if n == "errors.New" || n == "fmt.Errorf" {
+								good = true
+							}
+						}
+					}
+				}
+			}
+		}
+	}
+	res = stores == 1 && good
+	return res
 }
